@@ -221,6 +221,11 @@ type workerOut struct {
 	MaxHeld     int            `json:"max_held"`
 	Wits        []witness      `json:"wits"`
 	OpKinds     map[string]int `json:"op_kinds"`
+	// keys hammered while their (single) deadline passed
+	ExpiryRounds  int `json:"expiry_rounds"`
+	ExpirySkipped int `json:"expiry_rounds_skipped_slow_setup"`
+	ExpiryKeys    int `json:"expiry_keys"`
+	ExpiryCrossed int `json:"expiry_keys_with_replies_on_both_sides"`
 }
 
 func cmdStr(c [][]byte) string { return strings.Join(seqrun.QuoteFull(c), " ") }
@@ -706,6 +711,193 @@ func (rn *runner) conservationC05(r *rand.Rand, shards int) {
 	}
 }
 
+// expiryC05: keys that carry one deadline, hammered by several clients while the deadline passes. The deadline
+// passes once and the recreated key has none, so the acknowledged "counting" replies (INCR, HINCRBY, APPEND, RPUSH
+// all answer the new count) of one key must be b+1..b+p (before) and 1..q (after), each exactly once, and what is
+// stored at the end must be the q-th state. The clock only schedules the workload; the verdict does not read it.
+func (rn *runner) expiryC05(r *rand.Rand, shards int) {
+	in := inproc.New()
+	defer in.Stop()
+	const nKeys = 24
+	clients := 3 + r.Intn(3)
+	now := time.Now()
+	time.Sleep(now.Truncate(time.Second).Add(time.Second + 15*time.Millisecond).Sub(now))
+	deadline := time.Now().Truncate(time.Second).Add(time.Second)
+	fams := []string{"incr", "hincrby", "append", "rpush"}
+	type keyRun struct {
+		key, fam string
+		base     int64
+		replies  [][]int64  // per client
+		elems    [][]string // rpush: element pushed by the i-th acknowledged push of a client
+	}
+	runs := make([]*keyRun, nKeys)
+	for k := range runs {
+		kr := &keyRun{key: fmt.Sprintf("exp:%d", k), fam: fams[r.Intn(len(fams))], replies: make([][]int64, clients), elems: make([][]string, clients)}
+		runs[k] = kr
+		switch kr.fam {
+		case "incr":
+			rn.exec(in, respc.Cmd("SETEX", kr.key, "1", "0"))
+		case "hincrby":
+			rn.exec(in, respc.Cmd("HSET", kr.key, "n", "0"))
+			rn.exec(in, respc.Cmd("EXPIRE", kr.key, "1"))
+		case "append":
+			rn.exec(in, respc.Cmd("SETEX", kr.key, "1", "s"))
+			kr.base = 1
+		case "rpush":
+			rn.exec(in, respc.Cmd("RPUSH", kr.key, "seed"))
+			rn.exec(in, respc.Cmd("EXPIRE", kr.key, "1"))
+			kr.base = 1
+		}
+	}
+	if time.Now().After(deadline.Add(-200 * time.Millisecond)) {
+		rn.out.ExpirySkipped++
+		return
+	}
+	from, until := deadline.Add(-3*time.Millisecond), deadline.Add(10*time.Millisecond)
+	var wg sync.WaitGroup
+	for _, kr := range runs {
+		for ci := 0; ci < clients; ci++ {
+			wg.Add(1)
+			go func(kr *keyRun, ci int) {
+				defer wg.Done()
+				time.Sleep(time.Until(from))
+				for i := 0; time.Now().Before(until) && i < 4000; i++ {
+					var cmd [][]byte
+					el := ""
+					switch kr.fam {
+					case "incr":
+						cmd = respc.Cmd("INCR", kr.key)
+					case "hincrby":
+						cmd = respc.Cmd("HINCRBY", kr.key, "n", "1")
+					case "append":
+						cmd = respc.Cmd("APPEND", kr.key, "x")
+					case "rpush":
+						el = fmt.Sprintf("c%d-%d", ci, i)
+						cmd = respc.Cmd("RPUSH", kr.key, el)
+					}
+					v, _, _, ok := rn.exec(in, cmd)
+					if !ok {
+						return
+					}
+					if v.Kind != ':' {
+						rn.report(witness{Kind: "expiry-crossing", Detail: fmt.Sprintf("%s replied %s while its key's deadline passed", cmdStr(cmd), v.String()), Sig: "expiry-crossing|unexpected-reply|" + kr.fam})
+						return
+					}
+					kr.replies[ci] = append(kr.replies[ci], v.Int)
+					kr.elems[ci] = append(kr.elems[ci], el)
+				}
+			}(kr, ci)
+		}
+	}
+	wg.Wait()
+	rn.out.ExpiryRounds++
+	for _, kr := range runs {
+		count := map[int64]int{}
+		var n, max int64
+		elemReply := map[string]int64{}
+		for ci := range kr.replies {
+			for i, v := range kr.replies[ci] {
+				count[v]++
+				n++
+				if v > max {
+					max = v
+				}
+				if kr.elems[ci][i] != "" {
+					elemReply[kr.elems[ci][i]] = v
+				}
+			}
+		}
+		rn.out.Ops += int(n)
+		rn.out.ExpiryKeys++
+		// what is stored now
+		var final int64 = -1 // -1: no key
+		var listNow []string
+		switch kr.fam {
+		case "incr":
+			if v, _, _, _ := rn.exec(in, respc.Cmd("GET", kr.key)); !v.Nil {
+				final, _ = strconv.ParseInt(string(v.Str), 10, 64)
+			}
+		case "hincrby":
+			if v, _, _, _ := rn.exec(in, respc.Cmd("HGET", kr.key, "n")); !v.Nil {
+				final, _ = strconv.ParseInt(string(v.Str), 10, 64)
+			}
+		case "append":
+			if v, _, _, _ := rn.exec(in, respc.Cmd("STRLEN", kr.key)); v.Int > 0 {
+				final = v.Int
+			}
+		case "rpush":
+			v, _, _, _ := rn.exec(in, respc.Cmd("LRANGE", kr.key, "0", "-1"))
+			for _, e := range v.Arr {
+				listNow = append(listNow, string(e.Str))
+			}
+			if len(listNow) > 0 {
+				final = int64(len(listNow))
+			}
+		}
+		// candidate splits: the highest reply ends the first or the second run
+		explained := false
+		var tried []string
+		for _, q := range []int64{n - (max - kr.base), max} {
+			pN := n - q
+			if q < 0 || pN < 0 {
+				continue
+			}
+			want := map[int64]int{}
+			for v := kr.base + 1; v <= kr.base+pN; v++ {
+				want[v]++
+			}
+			for v := int64(1); v <= q; v++ {
+				want[v]++
+			}
+			same := len(want) == len(count)
+			for v, c := range want {
+				if count[v] != c {
+					same = false
+					break
+				}
+			}
+			wantFinal := q
+			if q == 0 {
+				wantFinal = -1
+			}
+			tried = append(tried, fmt.Sprintf("%d before + %d after the deadline: replies %v, stored count %d (have %d)", pN, q, same, wantFinal, final))
+			if same && final == wantFinal {
+				explained = true
+				if q > 0 && pN > 0 {
+					rn.out.ExpiryCrossed++
+				}
+				break
+			}
+		}
+		if explained && kr.fam == "rpush" {
+			for i, e := range listNow {
+				if rep, ok := elemReply[e]; !ok || rep != int64(i+1) {
+					explained = false
+					tried = append(tried, fmt.Sprintf("element %q at position %d of the stored list was acknowledged with length %d", e, i, rep))
+					break
+				}
+			}
+		}
+		if !explained {
+			var h [][]string
+			for ci := range kr.replies {
+				row := []string{fmt.Sprintf("client %d", ci)}
+				for i, v := range kr.replies[ci] {
+					if i >= 60 {
+						row = append(row, "...")
+						break
+					}
+					row = append(row, strconv.FormatInt(v, 10))
+				}
+				h = append(h, row)
+			}
+			rn.report(witness{Kind: "expiry-crossing", Detail: fmt.Sprintf("key %q (%s, %d clients, %d acknowledged operations, highest reply %d): the replies and the stored value are not those of one run up to the deadline and one run after it: an acknowledged update was lost or applied twice; %s",
+				kr.key, kr.fam, clients, n, max, strings.Join(tried, " | ")), History: h, Sig: "expiry-crossing|lost-or-repeated-update|" + kr.fam})
+		}
+	}
+	rn.quiesce(in, "C05 expiry crossing")
+}
+
 // ---- C13 --------------------------------------------------------------------
 
 func genMulti(r *rand.Rand, kind string, keys []string, uniq string) [][]byte {
@@ -1021,6 +1213,8 @@ func worker(o *common.Opts) {
 		} else {
 			if h%20 == 19 {
 				rn.conservationC05(r, *fShards)
+			} else if h%20 == 9 {
+				rn.expiryC05(r, *fShards)
 			} else {
 				rn.historyC05(r, *fShards)
 			}
@@ -1159,6 +1353,10 @@ func main() {
 			agg.Unknown += w.Unknown
 			agg.Overlapping += w.Overlapping
 			agg.Conserv += w.Conserv
+			agg.ExpiryRounds += w.ExpiryRounds
+			agg.ExpirySkipped += w.ExpirySkipped
+			agg.ExpiryKeys += w.ExpiryKeys
+			agg.ExpiryCrossed += w.ExpiryCrossed
 			agg.LockEvents += w.LockEvents
 			if w.LockEdges > agg.LockEdges {
 				agg.LockEdges = w.LockEdges
@@ -1246,17 +1444,21 @@ func main() {
 	}
 	ev := &evidence.Evidence{PropertyID: prop, Tier: o.Tier, Seed: o.Seed, Level: "exploration", WallS: o.Elapsed(), Violations: violations,
 		Coverage: map[string]any{
-			"evaluations":                     agg.Histories,
-			"distinct_nontrivial":             len(agg.Signatures),
-			"rule":                            rule,
-			"samples":                         []any{"c0 INCR k1 || c1 INCR k1 || c2 GET k1 (same stripe as k2: c3 LPUSH k2 c3-0)", "c0 MSET a c0-1 b c0-1 || c1 MSET b c1-1 a c1-1 || c2 GET a; GET b", "c0 LMOVE x y LEFT RIGHT || c1 LMOVE y x RIGHT LEFT"},
-			"operations":                      agg.Ops,
-			"histories_decided_by_porcupine":  agg.Decided,
-			"histories_porcupine_unknown":     agg.Unknown,
-			"histories_with_overlapping_rmw":  agg.Overlapping,
-			"collision_classes":               agg.Classes,
-			"commands_by_name":                agg.OpKinds,
-			"quiescence_checks":               agg.Conserv,
+			"evaluations":                    agg.Histories,
+			"distinct_nontrivial":            len(agg.Signatures),
+			"rule":                           rule,
+			"samples":                        []any{"c0 INCR k1 || c1 INCR k1 || c2 GET k1 (same stripe as k2: c3 LPUSH k2 c3-0)", "c0 MSET a c0-1 b c0-1 || c1 MSET b c1-1 a c1-1 || c2 GET a; GET b", "c0 LMOVE x y LEFT RIGHT || c1 LMOVE y x RIGHT LEFT"},
+			"operations":                     agg.Ops,
+			"histories_decided_by_porcupine": agg.Decided,
+			"histories_porcupine_unknown":    agg.Unknown,
+			"histories_with_overlapping_rmw": agg.Overlapping,
+			"collision_classes":              agg.Classes,
+			"commands_by_name":               agg.OpKinds,
+			"quiescence_checks":              agg.Conserv,
+			"expiry_crossing_rounds":         agg.ExpiryRounds,
+			"expiry_crossing_rounds_skipped": agg.ExpirySkipped,
+			"expiry_crossing_keys":           agg.ExpiryKeys,
+			"expiry_crossing_keys_with_acknowledged_updates_on_both_sides_of_the_deadline": agg.ExpiryCrossed,
 			"race_reports":                    races,
 			"race_reports_first_party":        raceFP,
 			"lock_events_monitored":           agg.LockEvents,
